@@ -306,13 +306,16 @@ def ref_scope(fp, mobjs, offers, in_multiple):
 
 def ref_verbatim(o):
     """the value of a master object taken as it stands (no sources): what extraction gives for the template copy.
-    Inside D05 a multiple scope holds no multiples; a disabled object shows as None (scope.extract)."""
+    Inside D05 a multiple scope holds no multiples; a disabled object shows as None (scope.extract) unless an
+    earlier sibling of the same name has supplied a value (it then leaves that value alone)."""
     if o.is_definition:
         return o.extract()
     slots = {}
     for c in o.objects:
         if is_true(c.multiple):
             raise OutOfDomain("multiple inside a multiple scope")
+        if c.is_disabled and c.name in slots:
+            continue                                     # __phil_set__: a disabled object does not disturb an earlier sibling of its name
         v = None if c.is_disabled else ref_verbatim(c)
         if isinstance(slots.get(c.name), RScope) and isinstance(v, RScope):
             raise OutOfDomain("duplicate non-multiple sibling")
@@ -459,7 +462,10 @@ class MergeRules(MergeBase):
             mk("s\n  .multiple = True\n{\n  b = x\n}\n", ["s { b = y }\n", "s { b = z }\ns { b = x }\n", "s { b = y }\n"]),
             # .optional = False: the template is the first list element; further master occurrences come before the sources
             mk("s\n  .multiple = True\n  .optional = False\n{\n  b = x\n}\ns\n  .multiple = True\n{\n  b = w\n}\n", ["s { b = y }\ns.b = w\n"]),
-            # multiple definitions, optional True drops None
+            # the template of an .optional = False multiple scope holds a disabled namesake after an active definition:
+            # the disabled one leaves the value alone (seed 91 of the round-9 sweep: the reference had it overwrite with None)
+            mk("s\n  .multiple = True\n  .optional = False\n{\n  c = Auto\n    .type = strings\n  !c = a b\n}\n", ["s.c = a b\n", "s { c = None }\n"]),
+            mk("s\n  .multiple = True\n  .optional = False\n{\n  !c = a b\n  c = Auto\n    .type = strings\n}\n", ["s.c = x\n"]),
             mk("d = None\n  .type = int\n  .multiple = True\n  .optional = True\n", ["d = 1\nd = None\nd = 2\nd = 1\n"]),
             # untyped multiples: equal values spelt differently (bare / quoted, None / none) are equal instances
             mk("tag = a\n  .multiple = True\nother = 0\n  .type = int\n", ['tag = "a"\ntag = b\n', 'other = 3\ntag = "b"\ntag = c\n']),
